@@ -358,11 +358,61 @@ def show_view_(v, S, V, rownum):
             items.append(f"R{rownum[id(row)]}({len(row)}.{dash(row['name'])}.{dash(row['filename'])}."
                          f"{row['n_hashes']}.{int(bool(row['with_abundance']))}.{'-' if sg is None else sref(S, sg)})")
         own = "rows=" + ",".join(items)
+        if k == "multi":
+            own = f"par={dash(v.parent)}:{int(bool(v.prepend_location))};" + own
     elif k == "lca":
         own = f"n={len(v)};p=" + show_picks(v.picklists)
     else:
         own = "?"
-    return k + ";" + own + ";" + show_sigs(v)
+    return k + ";" + own + ";" + show_answers(v, S) + ";" + show_sigs(v)
+
+
+def probe_of(S):
+    """the probe query of the dump: the signature with the lowest handle that is flat, scaled and readable"""
+    for h in sorted(S):
+        try:
+            mh = S[h].minhash
+            if mh.scaled and not mh.track_abundance:
+                return S[h]
+        except Exception:  # noqa: BLE001
+            continue
+    return None
+
+
+def show_answers(v, S):
+    """what the collection ANSWERS beyond signatures(): len(), manifest membership of every signature of the world,
+    and a containment search with the probe query -- so that hidden indices / caches (manifest._md5_set, LCA / SBT
+    tables, node caches, sqlite row counts) show up as soon as they change an answer"""
+    try:
+        n = str(len(v))
+    except Exception as e:  # noqa: BLE001
+        n = "!" + exc_name(e)
+    m = getattr(v, "manifest", None)
+    if m is None:
+        member = "-"
+    else:
+        bits = []
+        for h in sorted(S):
+            try:
+                bits.append("1" if S[h] in m else "0")
+            except Exception:  # noqa: BLE001
+                bits.append("x")
+        member = "".join(bits) or "."
+    q = probe_of(S)
+    if q is None:
+        found = "-"
+    else:
+        try:
+            got = list(v.signatures())
+            if any(x.minhash._max_hash != q.minhash._max_hash or x.minhash.num for x in got):
+                found = "?"          # mixed resolutions: outside what the dump's model of `find` covers
+            elif kind_of(v) == "sbt" and any(leaf.name != leaf.data.md5sum() for leaf in v.leaves()):
+                found = "~"          # a referenced member got other hashes after insertion: the inner nodes are stale (C15.4)
+            else:
+                found = "+".join(sorted(dash(r.signature.name) for r in v.search(q, threshold=0.0, do_containment=True))) or "."
+        except Exception as e:  # noqa: BLE001
+            found = "!" + exc_name(e)
+    return f"n={n};in={member};f={found}"
 
 
 def world(T, S, V):
@@ -545,6 +595,24 @@ def view_ro(name, v, qs):
         return sorted(map(str, pl.pickset))
     if q is None:
         raise UnknownOp("query")
+    if name == "interleave":
+        # a search generator that is only partly consumed must not disturb another search on the same collection
+        # (nor on the collection it was selected from): hidden cursor / cache state
+        q2 = qs[1] if len(qs) > 1 else q
+        def names(it):
+            return [(r.score, sig_digest(r.signature)) for r in it]
+        ref1, ref2 = names(v.prefetch(q, 0)), names(v.prefetch(q2, 0))
+        g = v.prefetch(q, 0)
+        head = names([next(g)]) if ref1 else []
+        try:
+            mid = names(v.prefetch(q2, 0))
+            mid_child = names(v.select(ksize=21).prefetch(q2, 0))
+            rest = names(g)
+        except Exception as e:  # noqa: BLE001
+            raise Differs(f"interleaved search: {type(e).__name__}: {e}")
+        if head + rest != ref1 or mid != ref2 or sorted(mid_child) != sorted(ref2):
+            raise Differs("interleaved search gave other results")
+        return ref1, ref2
     if name == "search":
         return [(r.score, sig_digest(r.signature)) for r in v.search(q, threshold=0.0)]
     if name == "searchc":
@@ -570,7 +638,7 @@ SYNTAX = {
     "ssetstate": "hhnn", "sintofrozen": "h", "stomut": "hh", "stofrozen": "hh", "scopy": "hh", "spickle": "hh",
     "supdflat": "hh", "supdname": "hhn", "sgatherinit": "hh", "scg": "hh*", "sro": "w*", "vlinear": "h*",
     "vlazy": "hh", "vzip": "hb*", "vstandalone": "h*", "vmulti": "h*", "vsbt": "h*", "vlca": "h*", "vinsert": "hh",
-    "vsel": "hhK", "vselpick": "hhN", "vget": "hhh", "vro": "wh*", "vsbtload": "hhh*", "vsqlite": "h*", "vlcaload": "hh*",
+    "vsel": "hhK", "vselpick": "hhN", "vget": "hhh", "vro": "wh*", "vsbtload": "hhh*", "vsqlite": "h*", "vlcaload": "hh*", "vmf": "whh*", "vzipg": "hbh*",
 }
 
 
@@ -673,6 +741,53 @@ def view_save(name, v, qs):
         if after != before:
             raise ViewChanged(f"after {name}")
     return before
+
+
+MF_OPS = ("add", "eq", "in", "select", "filter", "misc")
+
+
+def row_key(row):
+    return tuple((k, str(row.get(k))) for k in sorted(CollectionManifest.required_keys))
+
+
+def mf_rows(m):
+    return [row_key(r) for r in m.rows]
+
+
+def manifest_ro(name, a, b, sigs):
+    """read-only calls on manifests a (receiver) and b"""
+    if name == "add":
+        x, y, z = a + b, b + a, a + a
+        return mf_rows(x), mf_rows(y), mf_rows(z), len(x), len(y), len(z)
+    if name == "eq":
+        return a == b, b == a, a == a, bool(a), bool(b)
+    if name == "in":
+        return [(x in a, x in b) for x in sigs]
+    if name == "select":
+        out = []
+        for kw in (dict(ksize=21), dict(ksize=31), dict(abund=True), dict(scaled=1), dict(moltype="DNA"), dict(moltype="protein"),
+                   dict(containment=True, scaled=1)):
+            try:
+                out.append(mf_rows(a.select_to_manifest(**kw)))
+            except Exception as e:  # noqa: BLE001
+                out.append("exc:" + type(e).__name__)
+        if hasattr(a, "_select"):
+            try:
+                out.append([row_key(r) for r in a._select(abund=True)])
+            except Exception as e:  # noqa: BLE001
+                out.append("exc:" + type(e).__name__)
+        return out
+    if name == "filter":
+        f1 = a.filter_rows(lambda row: bool(row["with_abundance"]))
+        f2 = a.filter_on_columns(lambda vals: any("a" in str(x) for x in vals), ["name", "filename"])
+        return mf_rows(f1), mf_rows(f2)
+    if name == "misc":
+        fp, fp2 = io.StringIO(), io.StringIO()
+        a.write_to_csv(fp, write_header=True)
+        a.write_to_csv(fp2, write_header=True)
+        return (sorted(map(str, a.to_picklist().pickset)), list(map(str, a.locations())), len(a), bool(a),
+                mf_rows(a), [row_key(r) for r in a.rows], fp.getvalue(), fp2.getvalue() == fp.getvalue())
+    raise UnknownOp(name)
 
 
 def obj_op(op, a, T, S, V):
@@ -781,7 +896,7 @@ def obj_op(op, a, T, S, V):
         idxs = [V[i(h)] for h in a[1:]]
         if not all(isinstance(x, LinearIndex) for x in idxs):
             raise UnknownOp("domain")
-        V[i(a[0])] = MultiIndex.load(idxs, [None] * len(idxs), parent="")
+        V[i(a[0])] = MultiIndex.load(idxs, [f"src{n}" for n in range(len(idxs))], parent="p", prepend_location=bool(i(a[0]) % 2))
     elif op in ("vsbt", "vlca"):
         sigs = [S[i(h)] for h in a[1:]]
         if not sigs or not uniform_scaled(sigs[0].minhash._max_hash, sigs):
@@ -800,6 +915,32 @@ def obj_op(op, a, T, S, V):
             for x in sigs:
                 db.insert(x)
             V[i(a[0])] = db
+    elif op == "vzipg":
+        import zipfile
+        sigs = [S[i(h)] for h in a[3:]]
+        kk = i(a[2])
+        if kk == 0 or not sigs or len({mins_of(x) for x in sigs}) != len(sigs):
+            raise UnknownOp("domain")
+        td = new_tmp()
+        zp = os.path.join(td, "adhoc.zip")
+        locs = []
+        with zipfile.ZipFile(zp, "w") as zf:
+            for g in range(0, len(sigs), kk):
+                nm = f"g{g // kk}.sig"
+                zf.writestr(nm, sigmod.save_signatures_to_json(sigs[g:g + kk]))
+                locs += [(x, nm) for x in sigs[g:g + kk]]
+            if i(a[1]):
+                mf = CollectionManifest.create_manifest(iter(locs), include_signature=False)
+                fp = io.StringIO()
+                mf.write_to_csv(fp, write_header=True)
+                zf.writestr("SOURMASH-MANIFEST.csv", fp.getvalue())
+        V[i(a[0])] = ZipFileLinearIndex.load(zp, use_manifest=bool(i(a[1])))
+    elif op == "vmf":
+        va, vb = V[i(a[1])], V[i(a[2])]
+        sigs = [S[i(h)] for h in a[3:]]
+        if a[0] not in MF_OPS:
+            raise UnknownOp(a[0])
+        return twice(lambda: manifest_ro(a[0], va.manifest, vb.manifest, sigs))
     elif op == "vsbtload":
         sigs = [S[i(h)] for h in a[3:]]
         if not sigs or i(a[1]) > 1 or not uniform_scaled(sigs[0].minhash._max_hash, sigs) \
@@ -878,7 +1019,7 @@ def obj_op(op, a, T, S, V):
         qs = [S[i(h)] for h in a[2:]]
         if a[0] in SAVES:
             return twice(lambda: view_save(a[0], v, qs))
-        if a[0] not in ("sigs", "locs", "manifest", "picklist", "search", "searchc", "prefetch", "best", "gather", "gatheri"):
+        if a[0] not in ("sigs", "locs", "manifest", "picklist", "search", "searchc", "prefetch", "best", "gather", "gatheri", "interleave"):
             raise UnknownOp(a[0])
         return twice(lambda: view_ro(a[0], v, qs))
     else:
@@ -889,7 +1030,7 @@ def obj_op(op, a, T, S, V):
 OBJ_OPS = {"snew", "smh", "ssetmh", "sname", "sfile", "saddseq", "saddprot", "ssetstate", "sintofrozen", "stomut",
            "stofrozen", "scopy", "spickle", "supdflat", "supdname", "sgatherinit", "scg", "sro", "vlinear", "vlazy",
            "vzip", "vstandalone", "vmulti", "vsbt", "vlca", "vinsert", "vsel", "vselpick", "vget", "vro",
-           "vsbtload", "vsqlite", "vlcaload"}
+           "vsbtload", "vsqlite", "vlcaload", "vmf", "vzipg"}
 
 
 def main():
